@@ -620,3 +620,81 @@ func TestRegressionFixedDefects(t *testing.T) {
 		}
 	}
 }
+
+// TestConcurrentBursts: rounds of many simultaneous arrivals at a quota that is empty or one short of full;
+// the bound is judged from the observed verdicts (no request of a round has ended when the round is counted).
+func TestConcurrentBursts(t *testing.T) {
+	r := ev.New(t, "C02")
+	rapid.Check(t, func(t *rapid.T) {
+		cfg := config{Max: rapid.Int64Range(1, 4).Draw(t, "max"), ExpireSec: 60, GCSec: 30}
+		if rapid.IntRange(0, 2).Draw(t, "parent") == 0 {
+			cfg.Parent, cfg.PMax, cfg.PExpire, cfg.PGC = true, rapid.Int64Range(1, 4).Draw(t, "pmax"), 60, 30
+		}
+		rounds := rapid.IntRange(5, 25).Draw(t, "rounds")
+		width := rapid.IntRange(4, 16).Draw(t, "width")
+		prefill := rapid.IntRange(0, 1).Draw(t, "prefill")
+		c := map[string]any{"config": cfg, "rounds": rounds, "width": width, "prefill_to_one_short": prefill == 1}
+		r.Case()
+		clk := vclock.New(time.Unix(1_700_000_000, 0))
+		engine.SetClock(clk)
+		dir, e := engine.NewDir(scratch)
+		if e != nil {
+			fmt.Println("VERIF-INFRA:", e)
+			t.Fatalf("%v", e)
+		}
+		defer dir.Remove()
+		_ = dir.WriteQuota("q.yaml", cfg.quotaYAML())
+		_ = dir.WriteFlow("f.yaml", flowYAML)
+		s, e := dir.Load()
+		if e != nil {
+			fmt.Println("VERIF-INFRA: configuration rejected:", e)
+			t.Fatalf("%v", e)
+		}
+		limit := cfg.Max
+		if cfg.Parent && cfg.PMax < limit {
+			limit = cfg.PMax
+		}
+		id := 0
+		for round := 0; round < rounds; round++ {
+			held := []int{}
+			if prefill == 1 {
+				for k := int64(0); k < limit-1; k++ {
+					id++
+					if res := engine.RunRequest(s, txn(id, false, clk.Now())); res.Err == nil && res.Early == nil {
+						held = append(held, id)
+					}
+				}
+			}
+			var wg sync.WaitGroup
+			var mu sync.Mutex
+			gate := make(chan struct{})
+			for k := 0; k < width; k++ {
+				id++
+				me := id
+				wg.Add(1)
+				go func() {
+					defer wg.Done()
+					<-gate
+					res := engine.RunRequest(s, txn(me, false, clk.Now()))
+					if res.Err == nil && res.Early == nil {
+						mu.Lock()
+						held = append(held, me)
+						mu.Unlock()
+					}
+				}()
+			}
+			close(gate)
+			wg.Wait()
+			if int64(len(held)) > limit {
+				t.Fatalf("%s", r.Fail(c, "round %d: %d transactions were admitted and are all still in flight, the quota chain allows %d", round, len(held), limit))
+			}
+			if int64(len(held)) == limit {
+				r.Class("round filled the quota exactly")
+			}
+			for _, h := range held {
+				engine.RunResponse(s, txn(h, false, clk.Now()))
+			}
+		}
+		r.NonTrivial(ev.JSON(c), func() any { return c })
+	})
+}
